@@ -340,7 +340,9 @@ def check_native(case):
 # ------------------------------------------------------------------ histories
 
 
-HIST_OPS = ["attach", "attach", "attach", "orbit_propagate", "new", "copy", "sweep"]
+HIST_OPS = ["attach", "attach", "attach", "orbit_propagate", "new", "copy", "sweep",
+            "scribble", "scribble", "repeat", "repeat"]
+SCRIBBLES = ["zero", "dv", "form", "frame"]
 _HIST_DT = gt._mix((6, gt.uniform_int(-3 * DAY_US, 3 * DAY_US)), (2, gt.uniform_int(-SPAN_US, SPAN_US)),
                    (1, st.sampled_from([0, 60 * 10**6, -DAY_US])))
 
@@ -348,7 +350,7 @@ _HIST_DT = gt._mix((6, gt.uniform_int(-3 * DAY_US, 3 * DAY_US)), (2, gt.uniform_
 @st.composite
 def history_case(draw):
     """2-3 element sets, 2-3 propagator objects of each kind, 3-10 operations.  The operation
-    plan comes from one uniform draw (two decimal digits per field): Hypothesis likes to copy
+    plan comes from one uniform draw (six decimal digits per step): Hypothesis likes to copy
     one step's draws over another's, which would make all steps alike."""
     n = draw(st.integers(2, 3))
     tles = [draw(gt.sgp4_fields("native")) for _ in range(n)]
@@ -361,15 +363,21 @@ def history_case(draw):
     ops = []
     for k in range(nops):
         r = plan // 10 ** (6 * k) % 10**6
-        ops.append(dict(op=HIST_OPS[r % 7], kind=("wrapper", "native")[r // 7 % 2], prop=r // 14 % 3,
-                        tle=r // 42 % 3, dt_us=draw(_HIST_DT)))
+        ops.append(dict(op=HIST_OPS[r % 11], kind=("wrapper", "native")[r // 11 % 2], prop=r // 22 % 3,
+                        tle=r // 66 % 3, how=SCRIBBLES[r // 198 % 4], spell=("date", "timedelta")[r // 792 % 2],
+                        dt_us=draw(_HIST_DT)))
     return dict(tles=tles, nprops=draw(st.integers(2, 3)), ops=ops)
 
 
 def check_history(case):
     """Interprets the operation list on fresh objects; after EVERY operation every propagator that
-    has an orbit attached is propagated to that operation's probe offset and must give the
-    reference state of the element set currently attached to it."""
+    has an orbit attached is asked for the current probe instant and must give a NEW object holding
+    the reference state of the element set currently attached to it.
+
+    'scribble' changes the latest result of one propagator in place (zero it, add a dv, change its
+    form, change its frame - what a caller does with a state it was given) and 'repeat' does
+    nothing: both leave the probe instant where it was, so the sweep that follows asks every
+    propagator for the SAME instant again (spelled as a Date or as a timedelta from the epoch)."""
     import numpy as np
     from beyond.dates import Date
     from beyond.io.tle import Tle
@@ -382,11 +390,14 @@ def check_history(case):
     klass = dict(wrapper=Sgp4, native=Sgp4Beta)
     props = {k: [klass[k]() for _ in range(case["nprops"])] for k in klass}
     attached = {k: [None] * case["nprops"] for k in klass}
+    last = {k: [None] * case["nprops"] for k in klass}  # (result, dt_us, element set) of the latest request
+    handed = []  # every result ever received (kept alive: identity comparisons stay meaningful)
+    scribbled = set()
     worst = 0.0
     compared = 0
-    labels = set()
+    labels = []
 
-    def probe(kind, j, dt_us, step):
+    def probe(kind, j, dt_us, step, spell):
         nonlocal worst, compared
         i = attached[kind][j]
         f = tles[i]
@@ -394,37 +405,62 @@ def check_history(case):
         date_dt = to_datetime(mjd, us)
         err, rr, rv, sat = reference(f, mjd, us)
         what = f"history-{kind}"
+        arg = _dt.timedelta(microseconds=dt_us) if spell == "timedelta" else Date(date_dt)
+        prev = last[kind][j]
+        repeat = prev is not None and prev[1] == dt_us and prev[2] == i
         if err != 0:
             try:
-                props[kind][j].propagate(Date(date_dt))
+                props[kind][j].propagate(arg)
             except Exception:
                 pass
+            last[kind][j] = None
             return
         if kind == "native":
             if sat.method != "n" or sat.altp * sat.radiusearthkm < 220.001 or decayed_en_route(sat, dt_us):
+                last[kind][j] = None
                 return
             ptol, vtol = 1e-2, 1e-2 * float(np.linalg.norm(rv) / np.linalg.norm(rr))
         else:
             ptol, vtol, _ = comparable(sat, dt_us, rr, rv)
-        sv = props[kind][j].propagate(Date(date_dt))
+        sv = props[kind][j].propagate(arg)
+        where = (f"after step {step} ({case['ops'][step]['op']}): propagator {kind}#{j}, attached to element set {i}, "
+                 f"asked by {spell}" + (" for the same instant as just before" if repeat else ""))
+        if any(sv is old for old in handed):
+            raise Violation(f"{what}:same-object", f"{where}: propagate() returned an object it had already returned "
+                            "(the caller may have changed it since)")
+        if any(np.shares_memory(np.asarray(sv.base), np.asarray(old.base)) for old in handed):
+            raise Violation(f"{what}:shared-buffer", f"{where}: the result shares its array with an earlier result")
+        handed.append(sv)
         try:
             ratio = compare(sv, date_dt, rr, rv, ptol, vtol, what=what)
         except Violation as v:
-            raise Violation(v.kind, f"after step {step} ({case['ops'][step]['op']}): propagator {kind}#{j}, "
-                            f"attached to element set {i}: {v.msg}", **v.data) from None
+            raise Violation(v.kind, f"{where}: {v.msg}", **v.data) from None
         worst = max(worst, ratio)
         compared += 1
+        if repeat:
+            labels.append("repeat-same-instant")
+            if (kind, j) in scribbled:
+                labels.append("repeat-after-scribble")
+            if spell == "timedelta":
+                labels.append("repeat-by-timedelta")
+        last[kind][j] = (sv, dt_us, i)
 
+    cur_dt, spell = case["ops"][0]["dt_us"], "date"
     for step, op in enumerate(case["ops"]):
         kind, j, i = op["kind"], op["prop"] % case["nprops"], op["tle"] % n
         name = op["op"]
-        labels.add(f"op:{name}")
+        labels.append(f"op:{name}")
+        if name not in ("scribble", "repeat"):
+            cur_dt = op["dt_us"]
+            scribbled.clear()
+        spell = op.get("spell", "date")
         if name == "attach":
             props[kind][j].orbit = orbits[i]
             attached[kind][j] = i
         elif name == "new":
             props[kind][j] = klass[kind]()
             attached[kind][j] = None
+            last[kind][j] = None
         elif name == "copy":
             # the orbit object is replaced by a copy (which carries a propagator of its own)
             orbits[i] = orbits[i].copy()
@@ -436,21 +472,43 @@ def check_history(case):
             attached["wrapper"][j] = i
             mjd, us = target(tles[i], op["dt_us"])
             try:
-                orbits[i].propagate(Date(to_datetime(mjd, us)))
+                got = orbits[i].propagate(Date(to_datetime(mjd, us)))
             except Exception:
                 if reference(tles[i], mjd, us)[0] == 0:
                     raise
-        # invariant: every attached propagator answers for ITS element set
+            else:
+                handed.append(got)
+                last["wrapper"][j] = (got, op["dt_us"], i)
+        elif name == "scribble":
+            # the caller works on the state it was given: in place
+            for k in klass:
+                for jj in range(case["nprops"]):
+                    if last[k][jj] is None or (k, jj) != (kind, j) and op["tle"] != 2:
+                        continue
+                    sv = last[k][jj][0]
+                    try:
+                        if op["how"] == "zero":
+                            sv[:] = 0.0
+                        elif op["how"] == "dv":
+                            sv[3:] = np.asarray(sv.base, float)[3:] + 100.0
+                        elif op["how"] == "form":
+                            sv.form = "keplerian"
+                        else:
+                            sv.frame = "EME2000"
+                    except Exception:
+                        sv[:] = 0.0  # the conversion is only a stimulus (C01 / C02 judge it)
+                    scribbled.add((k, jj))
+        # invariant: every attached propagator answers for ITS element set, with a new object
         for k in klass:
             for jj in range(case["nprops"]):
                 if attached[k][jj] is not None:
-                    probe(k, jj, op["dt_us"], step)
+                    probe(k, jj, cur_dt, step, spell)
     kinds_live = sum(1 for k in klass for jj in range(case["nprops"]) if attached[k][jj] is not None)
     if kinds_live >= 2:
-        labels.add("two-or-more-attached")
+        labels.append("two-or-more-attached")
     if tles[0]["cat"] == tles[1]["cat"]:
-        labels.add("same-object")
-    return dict(nt=compared >= 3 and kinds_live >= 2, cls=sorted(labels), ratio=worst)
+        labels.append("same-object")
+    return dict(nt=compared >= 3 and kinds_live >= 2, cls=sorted(set(labels)), ratio=worst)
 
 
 FACETS = [
